@@ -5,6 +5,7 @@ pub mod c03;
 pub mod c04;
 pub mod c05;
 pub mod c06;
+pub mod c09;
 pub mod c11;
 pub mod c12;
 pub mod c13;
@@ -21,6 +22,7 @@ pub fn run(prop: &str, ctx: &mut Ctx) -> bool {
         "C04" => c04::run(ctx),
         "C05" => c05::run(ctx),
         "C06" => c06::run(ctx),
+        "C09" => c09::run(ctx),
         "C11" => c11::run(ctx),
         "C12" => c12::run(ctx),
         "C13" => c13::run(ctx),
